@@ -71,6 +71,9 @@ pub struct Case {
     pub tags: Vec<String>,
     #[serde(default)]
     pub budget: Option<usize>,
+    /// low-level solvers only: build the solver with dense_output(false)
+    #[serde(default)]
+    pub low_nodense: bool,
     /// inverse symmetry applied to recorded (t, y) before digesting: "id" | "reflect" | "scale:k" | "copies:m"
     #[serde(default = "idmap")]
     pub map: String,
@@ -394,22 +397,22 @@ pub fn execute(case: &Case, instr: &Instr) -> Outcome {
             let ms = case.max_steps;
             let res = match case.method.as_str() {
                 "RK4" => {
-                    let s = RK4::builder().max_steps(ms.unwrap_or(100_000)).build();
+                    let s = RK4::builder().max_steps(ms.unwrap_or(100_000)).dense_output(!case.low_nodense).build();
                     let h = case.first_step.unwrap_or((case.xend - case.x0) / 100.0);
                     s.solve(instr, case.x0, &case.y0, case.xend, h, Some(&mut so))
                 }
                 "RK23" => RK23::builder().maybe_max_step(case.max_step).maybe_first_step(case.first_step)
-                    .max_steps(ms.unwrap_or(10_000)).build()
+                    .max_steps(ms.unwrap_or(10_000)).dense_output(!case.low_nodense).build()
                     .solve(instr, case.x0, &case.y0, case.xend, tol(&case.rtol), tol(&case.atol), Some(&mut so)),
                 "DOPRI5" => DOPRI5::builder().maybe_max_step(case.max_step).maybe_first_step(case.first_step)
-                    .max_steps(ms.unwrap_or(100_000)).build()
+                    .max_steps(ms.unwrap_or(100_000)).dense_output(!case.low_nodense).build()
                     .solve(instr, case.x0, &case.y0, case.xend, tol(&case.rtol), tol(&case.atol), Some(&mut so)),
                 "DOP853" => DOP853::builder().maybe_max_step(case.max_step).maybe_first_step(case.first_step)
-                    .max_steps(ms.unwrap_or(100_000)).build()
+                    .max_steps(ms.unwrap_or(100_000)).dense_output(!case.low_nodense).build()
                     .solve(instr, case.x0, &case.y0, case.xend, tol(&case.rtol), tol(&case.atol), Some(&mut so)),
                 "RADAU" => {
                     let b = RADAU::builder().maybe_max_step(case.max_step).maybe_first_step(case.first_step)
-                        .max_steps(ms.unwrap_or(100_000)).jac_storage(storage(&case.jac_storage, n, bw));
+                        .max_steps(ms.unwrap_or(100_000)).jac_storage(storage(&case.jac_storage, n, bw)).dense_output(!case.low_nodense);
                     let s = if case.mass_storage == "default" { b.build() } else { b.mass_storage(storage(&case.mass_storage, n, bw)).build() };
                     s.solve(instr, case.x0, &case.y0, case.xend, tol(&case.rtol), tol(&case.atol), Some(&mut so))
                 }
@@ -534,7 +537,7 @@ pub fn trace(case: &Case, instr: &Instr, out: &Outcome) -> Vec<Value> {
         "hasT": case.t_eval.is_some(),
         "hasFs": case.first_step.is_some(), "hasMs": case.max_step.is_some(),
         "maxsteps": case.max_steps.map(|v| v as i64).unwrap_or(-1),
-        "dense": case.dense,
+        "dense": case.dense, "lowdense": !case.low_nodense,
         "events": case.events.iter().map(|e| json!({"dir": e.dir, "term": e.term})).collect::<Vec<_>>(),
         "jac": case.jac, "problem": case.problem.kind, "tags": case.tags,
         "errctl": case.method != "RK4",
